@@ -8,7 +8,7 @@ From AV Require Import Lib.Bytes.
 From AV Require Lib.RtpX Lib.CodecX Model.SctpWire Model.Rtp Model.Rtcp Model.H264 Model.Vp8 Model.Router Model.Chan
   Model.SctpRecv.
 From AV Require Proof.SctpWireTotalP Proof.RtpTotalP Proof.RtcpTotalP Proof.RtcpP Proof.H264PBase Proof.Vp8P
-  Proof.RouterP Proof.ChanTotalP Proof.SctpDupP Proof.SctpC01P.
+  Proof.RouterP Proof.ChanTotalP Proof.SctpDupP Proof.SctpC01P Proof.SctpOnceFwdP.
 Import ListNotations.
 Local Open Scope Z_scope.
 
@@ -70,15 +70,16 @@ Proof. exact AV.Proof.ChanTotalP.recv_dcep_never_crashes. Qed.
 Print Assumptions C05_dcep_receive_total.
 
 (* SCTP reassembly: the only assertion on the DATA receive path is unreachable, for
-   every arrival list whose TSNs stay within a window of < 2^31 after the cumulative
-   TSN (whatever the duplication / reordering) *)
+   every event list -- DATA chunks and FORWARD-TSN chunks in any order, whatever the
+   duplication / reordering -- whose TSNs stay within a window of < 2^31 after the
+   initial cumulative TSN *)
 Theorem C05_reassembly_assertion_unreachable : forall base N es,
-  AV.Proof.SctpDupP.r32 base -> 0 <= N < 2147483648 -> Forall (AV.Proof.SctpDupP.data_ev base N) es ->
+  AV.Proof.SctpDupP.r32 base -> 0 <= N < 2147483648 -> Forall (AV.Proof.SctpOnceFwdP.ev_in base N) es ->
   Forall (fun o => o <> AV.Model.SctpRecv.OutAssert)
          (snd (AV.Model.SctpRecv.rrun (AV.Model.SctpRecv.rinit base) es)).
 Proof.
   intros base N es Hb HN Hes.
-  exact (AV.Proof.SctpDupP.no_assert base N Hb HN es _ (AV.Proof.SctpDupP.inv_rinit base N Hb HN) Hes).
+  exact (AV.Proof.SctpOnceFwdP.no_assert_all base N Hb HN es _ (AV.Proof.SctpDupP.inv_rinit base N Hb HN) Hes).
 Qed.
 Print Assumptions C05_reassembly_assertion_unreachable.
 
